@@ -139,11 +139,11 @@ end tukey
 
 /-- Over the reals the Tukey weights lie in `[0, 1]`. -/
 theorem tukeyWeight_range' (alpha : ℝ) (n i : Nat) : 0 ≤ tukeyWeight alpha n i ∧ tukeyWeight alpha n i ≤ 1 := by
-  have hc : ∀ y : ℝ, 0 ≤ (0.5 : ℝ) * (1 + TranscOps.cos y) ∧ (0.5 : ℝ) * (1 + TranscOps.cos y) ≤ 1 := by
+  have hc : ∀ y : ℝ, 0 ≤ (0.5 : ℝ) * ((1.0 : ℝ) + TranscOps.cos y) ∧ (0.5 : ℝ) * ((1.0 : ℝ) + TranscOps.cos y) ≤ 1 := by
     intro y
     have h1 := Real.neg_one_le_cos y
     have h2 := Real.cos_le_one y
-    change 0 ≤ (0.5 : ℝ) * (1 + Real.cos y) ∧ (0.5 : ℝ) * (1 + Real.cos y) ≤ 1
+    change 0 ≤ (0.5 : ℝ) * ((1.0 : ℝ) + Real.cos y) ∧ (0.5 : ℝ) * ((1.0 : ℝ) + Real.cos y) ≤ 1
     constructor <;> norm_num <;> linarith
   unfold tukeyWeight
   simp only
